@@ -144,6 +144,10 @@ func isolated(p *vm.Plan, trace bool) *vm.Result {
 func deathResult(p *vm.Plan, stderr string) *vm.Result {
 	prop := p.Property
 	sig, detail := deathSig(stderr)
+	if strings.HasPrefix(sig, "process death: :") {
+		// the dying goroutine has no library frame: the harness itself crashed
+		return &vm.Result{Run: p.Run, PlanHash: p.Hash(), Internal: "harness process died: " + tail(detail, 1200)}
+	}
 	return &vm.Result{Run: p.Run, PlanHash: p.Hash(), Violations: []vm.Violation{{Prop: deathProp(prop, p), Invariant: "process-death", Sig: sig, Detail: detail}}}
 }
 
@@ -546,6 +550,12 @@ func cmdCheck(args []string) int {
 					return
 				}
 				res := deathResult(&p, stderr)
+				if res.Internal != "" {
+					mu.Lock()
+					internal = append(internal, res.Internal)
+					mu.Unlock()
+					return
+				}
 				mu.Lock()
 				total.Evals++
 				total.Probes["worker_process_death"]++
